@@ -74,6 +74,18 @@ def generate():
     finally:
         if os.path.exists(exe5):
             os.unlink(exe5)
+    # numbers through text: printed values and parsed literals
+    exe6 = os.path.join(CACHE, "dump_numbers.%d" % os.getpid())
+    try:
+        subprocess.run(["g++", "-std=gnu++17", "-O0", "-I" + REPO + "/src", os.path.join(ROOT, "harness", "dump_numbers.cpp"), "-o", exe6],
+                       check=True, stdout=subprocess.PIPE, stderr=subprocess.PIPE, text=True)
+        numrows = {}
+        for line in run([exe6]).splitlines():
+            k, _, v = line.partition(" ")
+            numrows[k] = v.split()
+    finally:
+        if os.path.exists(exe6):
+            os.unlink(exe6)
     vals = {}
     for line in dump.splitlines():
         k, _, v = line.partition(" ")
@@ -130,6 +142,12 @@ def generate():
         return "(%d, %s, [%s], %s, %s)" % (kind, f_[1], ", ".join(f_[2:10]), f_[10], f_[11])
     L.append("/-- as<T>() of stored values (kind 0 = unsigned, 1 = signed given as its 64-bit two's complement, 2 = double bits, 3 = float bits; payload): the eight integral readings i8 u8 i16 u16 i32 u32 i64 u64, the bits of as<float>() and of as<double>() (NaN canonical) -/")
     L.append("def conv_rows : List (Nat × Nat × List Int × Nat × Nat) := [%s]" % ", ".join(convrow(e) for e in conv_rows))
+    hexl = lambda h: "[" + ", ".join(str(int(h[i:i + 2], 16)) for i in range(0, len(h), 2)) + "]" if h != "-" else "[]"
+    L.append("/-- serializeJson of stored numbers (kind 0 = unsigned, 1 = signed as two's complement, 2 = double bits, 3 = float bits; payload; text) -/")
+    L.append("def print_rows : List (Nat × Nat × List Nat) := [%s]" % ", ".join("(%s, %s, %s)" % (e.split(":")[0], e.split(":")[1], hexl(e.split(":")[2])) for e in numrows["print_rows"]))
+    L.append("/-- deserializeJson of number-like literals: (text, code, stored as an integer, as<uint64>, as<int64>, bits of as<float>, bits of as<double>) -/")
+    L.append("def parse_rows : List (List Nat × Nat × Nat × Nat × Int × Nat × Nat) := [%s]" % ", ".join(
+        "(%s, %s, %s, %s, %s, %s, %s)" % ((hexl(e.split(":")[0]),) + tuple(e.split(":")[1:7])) for e in numrows["parse_rows"]))
     for k in sorted(jsonfirst):
         L.append("/-- deserializeJson on a first byte and a fixed tail (alone: nothing; elem: `1]`; key: `\":1}x`), nesting limit 10; plain = default build, ext = comments, NaN and Infinity enabled: (first byte, code, bytes consumed, serializeJson of the document left) -/")
         L.append("def %s : List (Nat × Nat × Nat × List Nat) := [%s]" % (k, ", ".join(mprow(e) for e in jsonfirst[k])))
